@@ -217,6 +217,25 @@ def depot_limits(ctx):
     must_depend(ctx, "R5.add-path-checks-new-start-depot", "T1", S("add_path_to_vehicle_tour"), "dec",
                 [call(S("can_depot_spawn_vehicle")), call(ND("is_depot")), call(T("start_depot"))],
                 "adding a path that brings its own start depot is decided on that depot's capacity")
+    o, fd = ctx.require_fn("R5.add-path-checks-the-new-depot", "T1", S("add_path_to_vehicle_tour"),
+                           "the depot whose capacity is tested is the start depot the inserted path brings, not the one the vehicle leaves")
+    if fd is not None:
+        cs = calls_to(fd, S("can_depot_spawn_vehicle")) + calls_to(fd, S("can_depot_spawn_vehicle_custom_usage"))
+        PATH = "solution::path::Path"
+        bad, good = [], 0
+        for c in cs:
+            ch = direct_chain(fd, c.args[1])
+            if any(x in (T("start_depot"), S("tour_of"), T("first_node")) for x in ch):
+                bad.append(c)
+            elif any(x.startswith(PATH + "::") for x in ch):
+                good += 1
+        if bad:
+            ctx.bad(o, "the capacity test at %s is asked for the depot of the vehicle's current tour: a path that moves the vehicle to a full "
+                    "depot is accepted as long as the old depot has room" % bad[0].line(), loc=bad[0].line())
+        elif cs and good == len(cs):
+            ctx.ok(o, "the tested depot is the first node of the inserted path")
+        else:
+            ctx.undecided(o, "the provenance of the tested depot is not recognised")
     o, fd = ctx.require_fn("R5.improve-depots-uses-capacity", "T1", S("improve_depots_of_tour"),
                            "the start depot installed by improve_depots_of_tour is the capacity-checked choice")
     if fd is not None:
